@@ -169,6 +169,9 @@ type ReaderSpec struct {
 	StaleWDL bool `json:"stale_write_deadline,omitempty"`
 	// HTimeout: failing handlers return an error that is a net.Error with Timeout() == true
 	HTimeout bool `json:"handler_timeout_errors,omitempty"`
+	// NilHandlers: the application restored the default handlers with SetPingHandler(nil),
+	// SetPongHandler(nil), SetCloseHandler(nil) (documented; same behaviour as never setting them)
+	NilHandlers bool `json:"nil_handlers,omitempty"`
 }
 
 type hErr struct{ id int }
@@ -243,6 +246,23 @@ func isFlateErr(err error) bool {
 type hrec struct {
 	kind, op, code int
 	payload        []byte
+}
+
+// withNilHandlers makes every fourth default-handler case of a generator restore the defaults explicitly
+func withNilHandlers(gen func(*rand.Rand, string) []core.Spec) func(*rand.Rand, string) []core.Spec {
+	return func(rng *rand.Rand, tier string) []core.Spec {
+		out := gen(rng, tier)
+		k := 0
+		for _, s := range out {
+			if sp, ok := s.(*ReaderSpec); ok && !sp.Custom {
+				if k%4 == 3 {
+					sp.NilHandlers = true
+				}
+				k++
+			}
+		}
+		return out
+	}
 }
 
 func readerExec(s core.Spec) core.Exec {
@@ -352,6 +372,11 @@ func readerExec(s core.Spec) core.Exec {
 	if sp.StaleWDL {
 		c.SetWriteDeadline(time.Unix(1000, 0))
 	}
+	if sp.NilHandlers && !sp.Custom {
+		c.SetPingHandler(nil)
+		c.SetPongHandler(nil)
+		c.SetCloseHandler(nil)
+	}
 	if sp.Custom {
 		c.SetPingHandler(func(p string) error { hlog = append(hlog, hrec{0, opidx, 0, []byte(p)}); return hres() })
 		c.SetPongHandler(func(p string) error { hlog = append(hlog, hrec{1, opidx, 0, []byte(p)}); return hres() })
@@ -400,6 +425,9 @@ func readerExec(s core.Spec) core.Exec {
 	var executed []ROp
 	panicked := false
 	tags := []string{}
+	if sp.NilHandlers && !sp.Custom {
+		tags = append(tags, "handlers:reset-to-nil")
+	}
 	func() {
 		defer func() {
 			if r := recover(); r != nil {
